@@ -106,6 +106,12 @@ func (packet *Packet) GetSequenceNumber() byte {
 	return packet.header[SequenceIDIndex]
 }
 
+// nextSequenceNumber returns the sequence id of the packet that follows this one in the same exchange
+// (a payload of MaxPayloadLen bytes or more occupies several physical packets with consecutive ids)
+func (packet *Packet) nextSequenceNumber() byte {
+	return packet.header[SequenceIDIndex] + byte(len(packet.data)/MaxPayloadLen+1)
+}
+
 // GetData returns packet payload
 func (packet *Packet) GetData() []byte {
 	return packet.data
